@@ -3,6 +3,7 @@
   on the decoded document.
 -/
 import Hv.Patch.SpecLemmas
+import Hv.Patch.LeafBytes
 
 namespace Hv.Patch
 open Spec
